@@ -228,7 +228,20 @@ func (e *Engine) applySummary(st *State, fr *Frame, callee *ssa.Function, fc *Fu
 //   heap | prefix <array-name-prefix> | elems(e) | entries(e) | <addressable expression>
 func (e *Engine) havocAssigns(st *State, fc *FuncContract, callee *ssa.Function, args []Val) {
 	if !fc.HasAssigns {
-		return // default frame: nothing visible to the caller is assigned
+		// no assigns clause: the frame is what the callee's body can write (type-based write set
+		// computed from the code), so an omitted clause can never hide a write from the caller
+		if fc.Trusted || len(callee.Blocks) == 0 {
+			return
+		}
+		m := e.modset(callee, map[*ssa.Function]bool{})
+		if m["*"] {
+			st.heap.havocPrefix("*")
+			return
+		}
+		for p := range m {
+			st.heap.havocPrefix(p)
+		}
+		return
 	}
 	for i, a := range fc.Assigns {
 		a = strings.TrimSpace(a)
@@ -590,7 +603,7 @@ func (e *Engine) callMods(c *ssa.CallCommon, m map[string]bool, visiting map[*ss
 }
 
 func (e *Engine) fnMods(f *ssa.Function, m map[string]bool, visiting map[*ssa.Function]bool) {
-	if fc := e.W.ByFunc[f]; fc != nil && (fc.Pure || !fc.HasAssigns) {
+	if fc := e.W.ByFunc[f]; fc != nil && (fc.Pure || (fc.Trusted && !fc.HasAssigns)) {
 		return
 	}
 	if fc := e.W.ByFunc[f]; fc != nil && fc.HasAssigns {
@@ -797,6 +810,8 @@ func (e *Engine) enterBlock(st *State, fr *Frame) bool {
 			t := e.evalClause(st, ld.fc, c, e.loopClauseArgs(st, fr, c, ld), e.preHeap)
 			e.oblige(st, fmt.Sprintf("%s.invariant#%d.entry", loopName, k), "invariant-entry", where, t)
 		}
+		// the frame must hold here before the loop head forgets what was written so far
+		e.frameCheck(st, where)
 		// havoc
 		for _, a := range ld.modCells {
 			ck := cellKey{fr.id, a}
@@ -820,11 +835,12 @@ func (e *Engine) enterBlock(st *State, fr *Frame) bool {
 		if trace {
 			fmt.Fprintf(os.Stderr, "loop %s havoc set: %v\n", loopName, ld.modHeap)
 		}
+		framed := e.Mode == ModeVerify && e.TopFC != nil && e.TopFC.HasAssigns && !e.TopFC.Trusted
 		if ld.modHeap["*"] {
-			st.heap.havocPrefix("*")
+			st.heap.havocPrefixF("*", framed)
 		} else {
 			for p := range ld.modHeap {
-				st.heap.havocPrefix(p)
+				st.heap.havocPrefixF(p, framed)
 			}
 		}
 		if ld.rangeIdx != nil {
@@ -854,6 +870,7 @@ func (e *Engine) enterBlock(st *State, fr *Frame) bool {
 		t := e.evalClause(st, ld.fc, c, e.loopClauseArgs(st, fr, c, ld), e.preHeap)
 		e.oblige(st, fmt.Sprintf("%s.invariant#%d.preserved", loopName, k), "invariant-preserved", where, t)
 	}
+	e.frameCheck(st, where)
 	if lc.Decreases != nil {
 		snap := fr.loopEntry[fr.block.Index]
 		d1 := e.evalClause(st, ld.fc, lc.Decreases, e.loopClauseArgs(st, fr, lc.Decreases, ld), e.preHeap)
@@ -919,6 +936,7 @@ func (e *Engine) VerifyFunc(fn *ssa.Function, fc *FuncContract) (rep *FuncReport
 	e.TopFn, e.TopFC, e.Mode = fn, fc, ModeVerify
 	e.Paths = 0
 	e.specDepth = 0
+	e.topFrame = nil
 	st := &State{heap: &Heap{arr: map[string]*Term{}}, cells: map[cellKey]Val{}, eqs: map[*Term]*Term{},
 		normMemo: map[*Term]*Term{}, iters: map[int64]*iterState{}}
 	var args []Val
@@ -944,6 +962,7 @@ func (e *Engine) VerifyFunc(fn *ssa.Function, fc *FuncContract) (rep *FuncReport
 			t := e.evalClause(s, fc, c, eargs, e.preHeap)
 			e.oblige(s, fmt.Sprintf("%s.ensures#%d", shortFn(fn), k), "ensures", fr.block.Instrs[len(fr.block.Instrs)-1].Pos(), t)
 		}
+		e.frameCheck(s, fr.block.Instrs[len(fr.block.Instrs)-1].Pos())
 	}
 	fr := e.newFrame(fn, args)
 	st.frames = []*Frame{fr}
